@@ -724,6 +724,14 @@ func (f *forExpander) blockerOf(name string, onPath map[string]bool) string {
 		if _, defined := f.symbols[blocker]; !defined {
 			return blocker
 		}
+		// the name that was in the way has been defined since: what is in
+		// its way now is in the way here (and is noted here, so that a
+		// chain of symbols does not walk to its end again each time)
+		if next := f.blockerOf(blocker, onPath); next != "" {
+			f.symbolBlocker[name] = next
+			return next
+		}
+		// nothing: look at the whole value again, another name may be missing
 		delete(f.symbolBlocker, name)
 	}
 	if onPath[name] {
